@@ -110,6 +110,10 @@ def judge(ctx, op, steps, m, inp, what):
             w[0], w[2] = r, (steps, m.lines)
         if steps <= 3 and m.lines > w[1]:
             w[1] = m.lines
+    if getattr(m, 'memory', False):
+        ctx.fail(f'{op}:memory', f'{what}: the call tried to allocate more than 1 GiB (an allocation sized by a field of the input, not by its length)',
+                 inp, 'MemoryError under a 1 GiB cap', 'memory proportional to the input')
+        return False
     if m.aborted == 'time':
         ctx.fail(f'{op}:time', f'{what}: call did not finish within {WALL_CAP}s + 25us/line (lines so far {m.lines}, model steps {steps})', inp,
                  f'{m.seconds:.2f}s, {m.lines} lines', f'<= {WALL_CAP}s')
